@@ -475,6 +475,11 @@ func (sc *StorageCar) Finalize() error {
 	}
 
 	if sc.opts.WriteAsCarV1 {
+		// A CARv1 needs no index or header fix-up, but the store is finished all the same:
+		// later Puts must not keep appending to the archive.
+		sc.mu.Lock()
+		defer sc.mu.Unlock()
+		sc.closed = true
 		return nil
 	}
 
